@@ -178,6 +178,14 @@ def check(ctx, rep):
                         woke.append(e)
         rep.ob("R-REFS-JOBS", "TimeoutExecutor: a finished future wakes the timeout thread", bool(woke), "no done-callback on the returned future sets the timeout thread's event: the job of a future that finishes early (with its delegate future and result) stays in the executor's list until its deadline passes", where_of(st), trace_of(p))
     rep.require(nsub >= 1, "TimeoutExecutor.submit_timeout: no returning path")
+    # ... and the thread, once awake, drops every job whose future is done (the partition rows of C09)
+    from . import c09
+    from ..core import Report
+    sub = Report(rep.pid, ctx)
+    c09.check(ctx, sub)
+    for o in sub.obs:
+        if "finished job is dropped" in o.key or "a job kept was found not done" in o.key:
+            rep.ob("R-REFS-JOBS", "TimeoutExecutor " + o.key, o.ok, o.detail + " (its future, delegate future and result stay referenced until the deadline)", o.where, o.trace)
 
     # ---- R-REFS-FUTURE
     fut = prog.cls("_Future")
